@@ -45,7 +45,7 @@ def showTxn (mr mp : Manifest) : Txn → String
     "delete:u=" ++ showIds ((aff.map (·.1)).filter fun f => !removed.contains f) ++ ":r="
       ++ showIds (dedup (removed ++ gone mp aff))
   | .update aff removed patches news fm _ cm =>
-    "update:r=" ++ showIds (dedup (removed ++ gone mp aff)) ++ ":u=" ++ showIds (updatedIds aff removed patches)
+    "update:r=" ++ showIds (dedup (removed ++ gone mp aff)) ++ ":u=" ++ showIds ((aff.map (·.1)).filter (fun f => !removed.contains f) ++ patches.map (·.1))
       ++ ":n=" ++ toString news.length ++ ":fm=" ++ showIds fm ++ ":m=" ++ (if cm then "cols" else "rows")
   | .createIndex new removed =>
     "createindex:new=" ++ joinOr "+" (sortStr (new.map showIndex)) ++ ":rm="
@@ -165,7 +165,7 @@ def doReq (st : St) (s : Store) (h : Nat) (q : Req) : St × String :=
           match s'.hist.head?, s.hist.head? with
           | some top, some prev =>
             ({ st with store := some s', handles := setAt st.handles h s'.hist.length },
-              showState s'.hist.length (showTxn vr.m prev.m top.t) top.m)
+              showState s'.hist.length (showTxn vr.m prev.m (reqTxn vr.m s.nextUuid q)) top.m)
           | _, _ => (st, "err no_table")
 
 def step (st : St) (line : String) : St × String :=
